@@ -13,7 +13,9 @@ class Ctx:
     def __init__(self, facts_path, tables=None, name="repo"):
         self.name = name
         kf = (tables or {}).get("known_functions", {})
-        self.fx = Facts(facts_path, kf.get("functions"), kf.get("signatures"))
+        self.fx = Facts(facts_path, kf.get("functions"), kf.get("signatures"), kf.get("fields"), kf.get("params"), kf.get("fingerprints"), kf.get("locals"), kf.get("consts"))
+        import prov as _prov
+        _prov.REFERENCE_ADTS = set((kf.get("fields") or {}).keys())
         self.cg = CallGraph(self.fx)
         self.tables = tables or {}
         self._pg = {}
@@ -259,11 +261,15 @@ def atoms_match(rx, atoms):
     """Does regex rx match one of the atoms, in its literal or its name-wildcarded spelling - or, for a regex that
     names a number, in the spelling where named constants are replaced by their values?"""
     num = bool(_re.search(r"const:\\?d|const:\d", rx))
+    # a regex that names a constant of the reference tree also stands for its value (the code may spell the number)
+    rxv = _re.sub(r"const:(?:\((?:\?:)?[\w:|\\]*\)\??)?([A-Z][A-Z0-9_]+)", lambda m: ("const:%d" % CONST_VALUES[m.group(1)]) if m.group(1) in CONST_VALUES else m.group(0), rx)
     for a in atoms:
         if _re.search(rx, a) or _re.search(rx, wild(a)):
             return True
-        if num and "const:" in a:
+        if (num or rxv != rx) and "const:" in a:
             n = numeric(a)
             if n != a and (_re.search(rx, n) or _re.search(rx, wild(n))):
+                return True
+            if rxv != rx and (_re.search(rxv, n) or _re.search(rxv, wild(n))):
                 return True
     return False
